@@ -179,6 +179,7 @@ func classify(owner reflect.Type, sf reflect.StructField, f *field) {
 		if ft.Kind() != reflect.Int32 {
 			bad()
 		}
+		enumValues(f.enum) // panics on an enum we have no value table for
 		f.k = kEnum
 	case ft.Kind() == reflect.Uint64 && f.wire == "varint":
 		f.k = kU64
